@@ -86,3 +86,49 @@ theorem c15g_kswitch_serialize_fails_cleanly (ctx : Ctx) (expand : List Nat → 
   gs_writer_clean (kswitchC (ctC ctx expand)) k _ (gk_kswitch_serialize sinkStream ctx expand kv k hpid hl hkeys) s
 
 end HC.GS
+
+namespace HC.GS
+open HC HC.Codec HC.GenS
+
+/-! ### streams that also answer `ErrorKind::Interrupted` (C15 `SinkI`) -/
+
+/-- an interrupting sink as a stream: `write_all` is the retry loop `writeAllI` -/
+def sinkIStream : WStream SinkI IOErrI :=
+  ⟨fun b w => w.write b, fun b w => match writeAllI w b with
+    | (.ok (), w') => (.ok (), w')
+    | (.error e, w') => (.error (.io e), w')⟩
+
+def liftIOI {α} (r : Except IOErrI α × SinkI) : Except (WErr IOErrI) α × SinkI :=
+  match r with
+  | (.ok a, s) => (.ok a, s)
+  | (.error e, s) => (.error (.io e), s)
+
+/-- on an interrupting sink the chunk program IS the model's `serializeI` in `write_all` mode — so every generated writer proved equal to
+    a chunk program inherits `serialize_interrupts_invisible` / `serialize_faulty_interrupting` -/
+theorem runChunks_sinkI (cs : List Chunk) (w : SinkI) :
+    runChunks sinkIStream cs w = liftIOI (serializeI (fun _ => .writeAll) cs w) := by
+  induction cs generalizing w with
+  | nil => rfl
+  | cons c cs ih =>
+    simp only [runChunks, serializeI, scalarWriteI, wbind, wio]
+    have hw : sinkIStream.writeAll c.bytes w = (match writeAllI w c.bytes with
+      | (.ok (), w') => (.ok (), w')
+      | (.error e, w') => (.error (.io e), w')) := rfl
+    rw [hw]
+    rcases h : writeAllI w c.bytes with ⟨r, w'⟩
+    cases r with
+    | error e => simp [liftIOI]
+    | ok u =>
+      simp only [ih w']
+      rcases h2 : serializeI (fun _ => WMode.writeAll) cs w' with ⟨r2, w''⟩
+      cases r2 <;> simp [liftIOI, wpure]
+
+/-- generated `EncryptionParameters` / `Plaintext` writers on an interrupting, short-writing, failing stream -/
+theorem c15g_source_writers_interrupting (w : SinkI) :
+    (∀ p : Params, p.scheme < 256 →
+      params_serialize sinkIStream p w = liftIOI (serializeI (fun _ => .writeAll) (paramsC.chunks p) w)) ∧
+    (∀ p : Plain, p.pid.length = 4 →
+      plain_serialize sinkIStream p w = liftIOI (serializeI (fun _ => .writeAll) (plainC.chunks p) w)) :=
+  ⟨fun p hp => by rw [gs_params_serialize _ p hp, runChunks_sinkI], fun p hp => by rw [gs_plain_serialize _ p hp, runChunks_sinkI]⟩
+
+end HC.GS
